@@ -702,7 +702,11 @@ func (e *Env) call(c *ECall) TV {
 		p := e.eval(c.Args[0])
 		pr, ok := p.V.(*PRef)
 		if !ok {
-			sfail("atomicval() needs a struct field")
+			if t, isTerm := p.V.(Term); isTerm {
+				// a pointer to an atomic value (a *atomic.Uint32 field): the object itself is the key
+				return TV{Sel(st.comp("AT!", ArrSort(SI, SI)), t), nil}
+			}
+			sfail("atomicval() needs a struct field or a pointer to an atomic value")
 		}
 		comp := st.comp("AT!"+typeName(pr.Root)+"!"+fieldNameAt(pr.Root, pr.Path), ArrSort(SI, SI))
 		return TV{Sel(comp, pr.Ref), nil}
@@ -735,9 +739,10 @@ func (e *Env) call(c *ECall) TV {
 		if len(c.Args) > 2 {
 			j = int(c.Args[2].(*EInt).V.Int64())
 		}
-		rt := e.x.eng.callRets[key]
+		rt := e.x.eng.resultTypes(key)
 		if rt == nil || j >= len(rt) || sortOf(rt[j]) == "" {
-			sfail("no scalar result %d known for %q", j, key)
+			// no call of K anywhere any more: an arbitrary value, so that a clause that needs the result cannot be proved
+			return TV{e.st.fresh("noresult."+sanitize(key), SI), nil}
 		}
 		base := e.oldComp("D!"+sanitize(key), SI)
 		arr := st.comp(fmt.Sprintf("DR!%s!%d", sanitize(key), j), ArrSort(SI, sortOf(rt[j])))
@@ -767,9 +772,9 @@ func (e *Env) call(c *ECall) TV {
 		if len(c.Args) > 2 {
 			j = int(c.Args[2].(*EInt).V.Int64())
 		}
-		rt := e.x.eng.callRets[key]
+		rt := e.x.eng.resultTypes(key)
 		if rt == nil || j >= len(rt) {
-			sfail("no result type known for %q", key)
+			return TV{e.st.fresh("noresult."+sanitize(key), SI), nil}
 		}
 		s := sortOf(rt[j])
 		if s == "" {
